@@ -521,7 +521,9 @@ func runC19(env *Env) {
 		{StartX: -40, StartY: -1000, ColumnGap: 1000, RowGap: 100, ProcessGap: 5000},
 	}
 	var litems []string
-	gw := []*Prog{c04Prog([]int{1, 0, 1}, 1, 2, ""), c04Prog([]int{1, 1}, -1, 3, ""), c04Prog([]int{0, 0, 0, 1}, 3, 1, "")}
+	// graphs with gateways, three of them with a flow back to an earlier node (loops)
+	gw := []*Prog{c04Prog([]int{1, 0, 1}, 1, 2, ""), c04Prog([]int{1, 1}, -1, 3, ""), c04Prog([]int{0, 0, 0, 1}, 3, 1, ""),
+		c03Prog(2, 1), c03Prog(3, 2), c19LoopProg()}
 	for i := 0; i < nLay; i++ {
 		np := 1 + rng.Intn(3)
 		procs := []*schema.Process{}
@@ -567,4 +569,28 @@ func runC19(env *Env) {
 	}
 	env.WriteCases(rep, "_layout", "Corr.C19corr", "(Z * Z * Z * Z * Z) * list (nat * list (nat * nat) * list string) * list (list (Z * Z * Z * Z)) * list (list (list (Z * Z)))", litems, "c19_layout_mismatches")
 	env.WriteReport(rep)
+}
+
+// c19LoopProg: start -> M -> T -> X, X -> M (back) and X -> fork -> A, B -> two end events: a loop followed by a split
+func c19LoopProg() *Prog {
+	p := &Prog{}
+	p.Node("start", "start")
+	p.Node("xor", "M")
+	p.Node("task", "T")
+	x := p.Node("xor", "X")
+	p.Node("par", "F")
+	p.Node("task", "A")
+	p.Node("task", "B")
+	p.Node("end", "endA")
+	p.Node("end", "endB")
+	p.Flow("start", "M", "")
+	p.Flow("M", "T", "")
+	p.Flow("T", "X", "")
+	p.Flow("X", "M", "again")
+	x.Default = p.Flow("X", "F", "").ID
+	p.Flow("F", "A", "")
+	p.Flow("F", "B", "")
+	p.Flow("A", "endA", "")
+	p.Flow("B", "endB", "")
+	return p
 }
